@@ -19,6 +19,7 @@ import (
 var vrfEntries = map[string]func(){
 	"VrfC11PinRoutes": VrfC11PinRoutes,
 	"VrfC11Auth":      VrfC11Auth,
+	"VrfC11ReadRoutes": VrfC11ReadRoutes,
 }
 
 // ---- response recorder
@@ -49,6 +50,8 @@ func (w *vrfWriter) WriteHeader(code int) {
 // ---- the cluster behind the API
 
 type vrfCall struct {
+	filter types.TrackerStatus
+	name   string
 	method string
 	pin    *types.Pin
 	path   *types.PinPath
@@ -115,9 +118,80 @@ func (s *vrfClusterSvc) ID(ctx context.Context, in struct{}, out *types.ID) erro
 	return s.ret()
 }
 
+func (s *vrfClusterSvc) StatusAll(ctx context.Context, in types.TrackerStatus, out *[]*types.GlobalPinInfo) error {
+	s.calls = append(s.calls, vrfCall{method: "StatusAll", filter: in})
+	return s.ret()
+}
+func (s *vrfClusterSvc) StatusAllLocal(ctx context.Context, in types.TrackerStatus, out *[]*types.PinInfo) error {
+	s.calls = append(s.calls, vrfCall{method: "StatusAllLocal", filter: in})
+	return s.ret()
+}
+func (s *vrfClusterSvc) RecoverAll(ctx context.Context, in struct{}, out *[]*types.GlobalPinInfo) error {
+	s.calls = append(s.calls, vrfCall{method: "RecoverAll"})
+	return s.ret()
+}
+func (s *vrfClusterSvc) RecoverAllLocal(ctx context.Context, in struct{}, out *[]*types.PinInfo) error {
+	s.calls = append(s.calls, vrfCall{method: "RecoverAllLocal"})
+	return s.ret()
+}
+func (s *vrfClusterSvc) Peers(ctx context.Context, in struct{}, out *[]*types.ID) error {
+	s.calls = append(s.calls, vrfCall{method: "Peers"})
+	return s.ret()
+}
+func (s *vrfClusterSvc) Version(ctx context.Context, in struct{}, out *types.Version) error {
+	s.calls = append(s.calls, vrfCall{method: "Version"})
+	return s.ret()
+}
+func (s *vrfClusterSvc) Alerts(ctx context.Context, in struct{}, out *[]types.Alert) error {
+	s.calls = append(s.calls, vrfCall{method: "Alerts"})
+	return s.ret()
+}
+func (s *vrfClusterSvc) Pins(ctx context.Context, in struct{}, out *[]*types.Pin) error {
+	s.calls = append(s.calls, vrfCall{method: "Pins"})
+	if s.result == 0 {
+		for i, t := range []types.PinType{types.DataType, types.MetaType, types.ShardType} {
+			p := types.PinCid(vrfTestCids[i])
+			p.Type = t
+			*out = append(*out, p)
+		}
+	}
+	return s.ret()
+}
+func (s *vrfClusterSvc) RepoGC(ctx context.Context, in struct{}, out *types.GlobalRepoGC) error {
+	s.calls = append(s.calls, vrfCall{method: "RepoGC"})
+	return s.ret()
+}
+func (s *vrfClusterSvc) RepoGCLocal(ctx context.Context, in struct{}, out *types.RepoGC) error {
+	s.calls = append(s.calls, vrfCall{method: "RepoGCLocal"})
+	return s.ret()
+}
+
+type vrfMonitorSvc struct{ s *vrfClusterSvc }
+
+func (m *vrfMonitorSvc) LatestMetrics(ctx context.Context, in string, out *[]*types.Metric) error {
+	m.s.calls = append(m.s.calls, vrfCall{method: "LatestMetrics", name: in})
+	return m.s.ret()
+}
+func (m *vrfMonitorSvc) MetricNames(ctx context.Context, in struct{}, out *[]string) error {
+	m.s.calls = append(m.s.calls, vrfCall{method: "MetricNames"})
+	return m.s.ret()
+}
+
+var vrfTestCids = func() []cid.Cid {
+	var out []cid.Cid
+	for _, s := range []string{"QmUaFyXjZUNaUwYF8rBtbJc7fEJ46aJXvgV8z2HHs6jvmJ", "QmbrCtydGyPeHiLURSPMqrvE5mCgMCwFYq3UD4XLCeAYw6", "QmZHKZDavkvNfA9gSAg7HALv8jF7BJaKjUc9U2LSuvUySB"} {
+		c, _ := cid.Decode(s)
+		out = append(out, c)
+	}
+	return out
+}()
+
 func vrfNewAPI(svc *vrfClusterSvc) *API {
 	srv := rpc.NewServer(nil, "vrf")
 	if err := srv.RegisterName("Cluster", svc); err != nil {
+		panic(err)
+	}
+	if err := srv.RegisterName("PeerMonitor", &vrfMonitorSvc{svc}); err != nil {
 		panic(err)
 	}
 	a := &API{ctx: context.Background(), config: &Config{}}
@@ -299,4 +373,128 @@ func VrfC11Auth() {
 	vrf_assert(vrf_or(valid, w.status == 401), "C11.auth.401")
 	vrf_assert(w.headers == 1, "C11.auth.one-status")
 	vrf_reach("C11.auth.end")
+}
+
+// VrfC11ReadRoutes: the read-only and whole-pinset routes: status and recover of
+// a CID (cluster-wide or local), the status and recover listings, allocations,
+// metrics, peers, id, version, alerts, repo gc.
+func VrfC11ReadRoutes() {
+	svc := &vrfClusterSvc{}
+	svc.result = vrf_choice("cluster_answer", 3)
+	a := vrfNewAPI(svc)
+	route := vrf_choice("route", 13)
+	vrf_note_int("route", route)
+	local := vrf_nondet_string("q_local")
+	q := url.Values{}
+	q.Set("local", local)
+	filters := []string{"", "pinned", "pin_error,queued", "bogus", "pinned,bogus"}
+	pinFilters := []string{"", "pin", "all", "meta-pin,shard-pin", "bogus"}
+	fs := filters[vrf_choice("status_filter", len(filters))]
+	pf := pinFilters[vrf_choice("pin_type_filter", len(pinFilters))]
+	if route == 2 {
+		q.Set("filter", fs)
+	}
+	if route == 4 {
+		q.Set("filter", pf)
+	}
+	r := &http.Request{Method: "GET", URL: &url.URL{Path: "/x", RawQuery: q.Encode()}, Header: http.Header{}}
+	w := &vrfWriter{hdr: http.Header{}}
+	hash := vrf_nondet_string("hash")
+	metric := vrf_nondet_string("metric_name")
+	isLocal := local == "true"
+	malformed := false
+	want := ""
+	switch route {
+	case 0: // GET /pins/{hash}
+		r = mux.SetURLVars(r, map[string]string{"hash": hash})
+		malformed = !vrfCidOK(hash)
+		want = "Status"
+		if isLocal {
+			want = "StatusLocal"
+		}
+		a.statusHandler(w, r)
+	case 1: // POST /pins/{hash}/recover
+		r = mux.SetURLVars(r, map[string]string{"hash": hash})
+		malformed = !vrfCidOK(hash)
+		want = "Recover"
+		if isLocal {
+			want = "RecoverLocal"
+		}
+		a.recoverHandler(w, r)
+	case 2: // GET /pins
+		malformed = fs != "" && types.TrackerStatusFromString(fs) == types.TrackerStatusUndefined
+		want = "StatusAll"
+		if isLocal {
+			want = "StatusAllLocal"
+		}
+		a.statusAllHandler(w, r)
+	case 3: // POST /pins/recover
+		want = "RecoverAll"
+		if isLocal {
+			want = "RecoverAllLocal"
+		}
+		a.recoverAllHandler(w, r)
+	case 4: // GET /allocations
+		malformed = pf == "bogus"
+		want = "Pins"
+		a.allocationsHandler(w, r)
+	case 5:
+		r = mux.SetURLVars(r, map[string]string{"name": metric})
+		want = "LatestMetrics"
+		a.metricsHandler(w, r)
+	case 6:
+		want = "MetricNames"
+		a.metricNamesHandler(w, r)
+	case 7:
+		want = "Peers"
+		a.peerListHandler(w, r)
+	case 8:
+		want = "ID"
+		a.idHandler(w, r)
+	case 9:
+		want = "Version"
+		a.versionHandler(w, r)
+	case 10:
+		want = "Alerts"
+		a.alertsHandler(w, r)
+	case 11:
+		want = "RepoGC"
+		if isLocal {
+			want = "RepoGCLocal"
+		}
+		a.repoGCHandler(w, r)
+	case 12: // unknown route
+		a.notFoundHandler(w, r)
+		vrf_assert(w.status == 404 && len(svc.calls) == 0 && w.headers == 1, "C11.read.unknown-route-404")
+		vrf_reach("C11.read.end-unknown")
+		return
+	}
+	vrf_assert(w.headers == 1, "C11.response.one-status")
+	vrf_assert(w.documents <= 1, "C11.response.one-document")
+	if malformed {
+		vrf_assert(w.status >= 400 && w.status < 500, "C11.malformed.4xx")
+		vrf_assert(len(svc.calls) == 0, "C11.malformed.no-rpc")
+		vrf_reach("C11.read.end-malformed")
+		return
+	}
+	vrf_assert(len(svc.calls) == 1, "C11.wellformed.one-rpc")
+	if len(svc.calls) != 1 {
+		return
+	}
+	call := svc.calls[0]
+	vrf_assert(call.method == want, "C11.rpc.matches-route")
+	switch route {
+	case 0, 1:
+		vrf_assert(call.cid.String() == vrfCidString(hash), "C11.rpc.same-cid")
+	case 2:
+		vrf_assert(call.filter == types.TrackerStatusFromString(fs), "C11.rpc.same-filter")
+	case 5:
+		vrf_assert(call.name == metric, "C11.rpc.same-metric-name")
+	}
+	if svc.result == 0 {
+		vrf_assert(w.status >= 200 && w.status < 300, "C11.ok.2xx")
+	} else {
+		vrf_assert(w.status >= 400, "C11.error.status")
+	}
+	vrf_reach("C11.read.end-wellformed")
 }
